@@ -15,14 +15,20 @@ import (
 func TestC05Stateful(t *testing.T) {
 	theT = t
 	col := ev.New("C05", "stateful",
-		"rapid state machine: committee (= Alphabet) sizes 1/4/7; ContainerFee and ContainerAliasFee changed through Netmap setConfig between puts (0,1,7,12345,10^8); before each put the owner's NEOFS balance is set to need-1 / need / need+1 / 0 / large where need=(fee[+aliasFee])*N; owners are three users and the standard account of a drawn Alphabet node (which pays one share to itself: net -need+fee); named and unnamed, fresh and repeated puts, names reused after the deletion of their previous container (the domain stays registered); oracle: success iff balance >= need; on success owner -need, every Alphabet standard account +fee per node, nobody else changes, supply unchanged, N TransferX with details 0x10||cid, container stored; on failure the full snapshot of all contracts is unchanged; non-trivial = a put at need-1 or need with fee>0 and N>1",
+		"rapid state machine: committee (= Alphabet) sizes 1/4/7, in half of the larger ones with fewer consensus nodes than committee members (2 of 4, 4 of 7); ContainerFee and ContainerAliasFee changed through Netmap setConfig between puts (0,1,7,12345,10^8); before each put the owner's NEOFS balance is set to need-1 / need / need+1 / 0 / large where need=(fee[+aliasFee])*N; owners are three users and the standard account of a drawn Alphabet node (which pays one share to itself: net -need+fee); named and unnamed, fresh and repeated puts, names reused after the deletion of their previous container (the domain stays registered); oracle: success iff balance >= need; on success owner -need, every Alphabet standard account +fee per node, nobody else changes, supply unchanged, N TransferX with details 0x10||cid, container stored; on failure the full snapshot of all contracts is unchanged; non-trivial = a put at need-1 or need with fee>0 and N>1",
 		"every other reason for a put to fail is excluded by construction (fresh or live-unnamed blob, valid free name, Alphabet witness)", "fee settings are non-negative")
 	runRapid(t, col, func(rt *rapid.T, h *ev.History) {
 		n := rapid.SampledFrom([]int{1, 4, 4, 7}).Draw(rt, "n")
 		feeVals := []int64{0, 1, 7, 12345, 1_0000_0000}
 		fee := rapid.SampledFrom(feeVals).Draw(rt, "fee")
 		aliasFee := rapid.SampledFrom(feeVals).Draw(rt, "aliasFee")
-		w := newCntWorld(n, h, fee, aliasFee)
+		// the Alphabet is the committee; the consensus nodes may be fewer (e.g. 7 committee members, 4 of them validators)
+		validators := 0
+		if n >= 4 && rapid.Bool().Draw(rt, "fewerValidators") {
+			validators = n - 2 - n/7
+			h.Mark("committee-larger-than-the-validator-set")
+		}
+		w := newCntWorldV(n, validators, h, fee, aliasFee)
 		defer w.close()
 		// owner 3 is the standard account of an Alphabet node: one of its fee payments goes to itself
 		w.owners = append(w.owners, w.c.Member(rapid.IntRange(0, n-1).Draw(rt, "ownerNode")))
